@@ -23,7 +23,7 @@ RULE = ('Programs: histories of 3-12 steps mixing legal adds with calls to every
         'callables exercised.')
 ASSUMPTIONS = ['e > t', 'dunder methods and properties are not "public callables"; mutating a dict obtained from a read accessor is not a call']
 TECHNIQUE = 'program-level PBT: introspected inherited callables with synthesised arguments inside histories; invariant after every call; frozen-graph mutator sweep'
-BUDGET = {'quick': {'cases': 10000, 'seconds': 45}, 'thorough': {'cases': 120000, 'seconds': 540}}
+BUDGET = {'quick': {'cases': 10000, 'seconds': 45}, 'thorough': {'cases': 400000, 'seconds': 540}}
 
 BLOCKED = ['add_edge', 'add_edges_from', 'add_weighted_edges_from', 'update', 'remove_edge', 'remove_edges_from', 'remove_node',
            'remove_nodes_from', 'edges_iter', 'in_edges', 'out_edges', 'in_edges_iter', 'out_edges_iter',
